@@ -144,7 +144,17 @@ func (n *Native) lead(ind string) string {
 	}
 }
 
+// deep: (very large bodies only) the indentation stops growing 24 levels down, so
+// that a value nested a thousand levels deep is not a text of megabytes of spaces.
+func (n *Native) deep(level int) int {
+	if n.Sparse > 0 && level > 24 {
+		return 24 + level%8
+	}
+	return level
+}
+
 func (n *Native) indent(level int) string {
+	level = n.deep(level)
 	switch n.pick("indent", 4) {
 	case 0, 1:
 		return strings.Repeat("  ", level)
@@ -351,7 +361,7 @@ func (n *Native) brsp() string {
 
 // brnl: newline inside brackets (newlines are insignificant there), possibly with a comment line.
 func (n *Native) brnl(level int) string {
-	ind := strings.Repeat("  ", level)
+	ind := strings.Repeat("  ", n.deep(level))
 	switch n.pick("brnl", 5) {
 	case 1:
 		return " " + n.lineCommentNoBlock() + ind
